@@ -4,6 +4,7 @@ use crate::report::{RunReport, Violation};
 use serde_json::Value;
 
 pub mod c01;
+pub mod c04;
 pub mod c06;
 
 #[derive(Clone, Copy, Debug, PartialEq)]
@@ -60,6 +61,7 @@ pub trait Prop: Sync {
 pub fn lookup(id: &str) -> Option<Box<dyn Prop>> {
     match id {
         "C01" => Some(Box::new(c01::C01)),
+        "C04" => Some(Box::new(c04::C04)),
         "C05" => Some(Box::new(c01::C05)),
         "C06" => Some(Box::new(c06::C06)),
         _ => None,
